@@ -1,5 +1,11 @@
 import ZoektModel.Basic.Proto
 import ZoektModel.C01.Spec
+import ZoektModel.C01.BTree
+import ZoektModel.C01.Word
+import ZoektModel.C01.Select
+import ZoektModel.C01.CaseVariants
+import ZoektModel.C01.Postings
+import ZoektModel.C01.Regex
 namespace ZoektModel.C01
 open ZoektModel ZoektModel.Proto
 
@@ -77,6 +83,69 @@ partial def shapes : MTs → List String
   | .cons h t => shape h ++ shapes t
 end
 
+/-- the posting lists the real iterators yielded are the ones the theorems talk about: for a case-sensitive leaf exactly
+    `post` of the selected trigram, for a case-insensitive leaf a cover of `post` of the lowered trigram in the
+    lower-cased texts (the hypothesis of `substr_ci_leaf_ok`) -/
+def subPostingsOK (ctx : Ctx) (s : Sub) : Bool :=
+  match s.it with
+  | Option.none => true
+  | some it =>
+    let texts := if s.fileName then ctx.names else ctx.contents
+    let T := if s.caseSens then texts else texts.map (List.map toLowerRune)
+    let ok (b : Basic) (k : Nat) : Bool :=
+      let want := post (tri s.pat k) T
+      if s.caseSens then b == [want] else want.all (fun q => b.any (·.contains q))
+    match it.iter with
+    | .basic b => ok b it.leftPad
+    | .dist x => ok x.i1 it.leftPad && ok x.i2 (it.leftPad + x.d)
+
+mutual
+partial def postingsOK (ctx : Ctx) : MT → Bool
+  | .sub s => subPostingsOK ctx s
+  | .and _ ch => postingsOKs ctx ch
+  | .andLine _ _ ch => postingsOKs ctx ch
+  | .or _ ch => postingsOKs ctx ch
+  | .not _ c => postingsOK ctx c
+  | .fileName _ c => postingsOK ctx c
+  | .boost _ c => postingsOK ctx c
+  | .noVisit c => postingsOK ctx c
+  | _ => true
+partial def postingsOKs (ctx : Ctx) : MTs → Bool
+  | .nil => true
+  | .cons h t => postingsOK ctx h && postingsOKs ctx t
+end
+
+/-- the structural hypotheses of `C01_search_exact_all` (`MT.OkF` at state 0, as far as they are decidable from the
+    dumped tree): substring leaves with selected trigram positions `i ≤ j`, `j + 3 ≤ |pattern|` and the pads
+    `iterateNgrams` computes from them; `andLine` nodes over substring leaves only -/
+def subShapeOK (s : Sub) : Bool :=
+  match s.it with
+  | Option.none => decide (0 < s.pat.length)
+  | some it =>
+    let d := match it.iter with | .basic _ => 0 | .dist x => x.d
+    decide (it.leftPad + d + 3 ≤ s.pat.length) && decide (it.rightPad = s.pat.length - it.leftPad) &&
+    decide (it.fileIdx = 0) && (match it.iter with | .basic _ => true | .dist x => !x.started && decide (0 < x.d))
+
+mutual
+partial def fragmentOK : MT → Bool
+  | .sub s => subShapeOK s
+  | .and _ ch => fragmentOKs ch
+  | .andLine _ _ ch => fragmentOKs ch && allSubs ch
+  | .or _ ch => fragmentOKs ch
+  | .not _ c => fragmentOK c
+  | .fileName _ c => fragmentOK c
+  | .boost _ c => fragmentOK c
+  | .noVisit c => fragmentOK c
+  | _ => true
+partial def fragmentOKs : MTs → Bool
+  | .nil => true
+  | .cons h t => fragmentOK h && fragmentOKs t
+partial def allSubs : MTs → Bool
+  | .nil => true
+  | .cons (.sub _) t => allSubs t
+  | .cons _ _ => false
+end
+
 def showRaw (n : Nat) : String := if n = maxU32 then "M" else toString n
 
 def showSt : St → String
@@ -112,14 +181,152 @@ def handleSearch (live names contents tree impl : String) : String :=
       let res := if impl == "tree=nil" then some [] else implRes? impl
       match res with
       | Option.none => badCase "impl output"
-      | some r => if checkP ctx mt r then answer model else specFail model "search-result-differs-from-scan"
+      | some r =>
+        if !(checkP ctx mt r) then specFail model "search-result-differs-from-scan"
+        else if !(postingsOK ctx mt) then specFail model "posting-lists-differ-from-the-occurrences-of-the-trigram"
+        else if !(fragmentOK mt) then specFail model "tree-outside-the-proved-fragment"
+        else answer model
     | _ => badCase "tree"
   | _, _, _ => badCase "fields"
+
+/-- `btree <B> <v> <sorted ngrams> <queries>`: build + freeze, `find` and `Get` for every query -/
+def handleBtree (b v ngs qs impl : String) : String :=
+  match b.toNat?, v.toNat?, natList? ngs, natList? qs with
+  | some B, some V, some ngs, some qs =>
+    let (t, last) := btBuild B V ngs
+    let shape := "{bucketSize:" ++ toString B ++ "_v:" ++ toString V ++ "}" ++
+      String.join (t.innerKeys.map fun ks => "[" ++ ",".intercalate (ks.map toString) ++ "]")
+    let finds := qs.map fun q => let r := t.find q; s!"{r.1}:{r.2}"
+    let gets := qs.map fun q => match btGet B ngs t last q with | some i => toString i | Option.none => "-1"
+    let model := s!"shape={shape} find={showList id finds} get={showList id gets}"
+    -- the property on the implementation's answers: the index of the ngram in the sorted section, or none
+    let want := qs.map fun q => match ngs.findIdx? (· == q) with | some i => toString i | Option.none => "-1"
+    let implGet := match (fields impl).filter (·.startsWith "get=") with
+      | [g] => some ((g.drop 4).toString)
+      | _ => Option.none
+    match implGet with
+    | Option.none => badCase "impl output"
+    | some g =>
+      if g != showList id want then specFail model "btree-get-differs-from-index"
+      else if !(btOK B ngs t last) then specFail model "btree-invariant"
+      else answer model
+  | _, _, _, _ => badCase "fields"
+
+/-- `word <data hex> <word hex>`: offsets reported by the fast path; spec: something is reported iff the word occurs
+    somewhere between non-word bytes -/
+def handleWord (dataHex wordHex impl : String) : String :=
+  match hexToBytes? dataHex, hexToBytes? wordHex with
+  | some d, some w =>
+    let data := d.map (·.toNat)
+    let word := w.map (·.toNat)
+    let model := "found=" ++ showNatList (wordMatches data word)
+    let implFound := (impl.drop 6).toString != "-"
+    if !impl.startsWith "found=" then badCase "impl output"
+    else if implFound != wordSpec data word then specFail model "word-fastpath-differs-from-scan"
+    else answer model
+  | _, _ => badCase "fields"
+
+/-- `select <pattern runes> <frequencies in sorted-trigram order>`: the positions of the two selected trigrams -/
+def handleSelect (pat freqs impl : String) : String :=
+  match natList? pat, natList? freqs with
+  | some pat, some freqs =>
+    let perm := sortedPositions pat
+    let r := findSelective perm (mkIndexMap perm) freqs
+    let model := s!"first={r.1} last={r.2} genuine=1"
+    -- the property on the implementation's answer: two genuine trigram positions of the pattern, first ≤ last
+    match (fields impl).map (fun f => (f.splitOn "=").getD 1 "") |>.mapM (·.toNat?) with
+    | some [f, l, g] =>
+      if f ≤ l ∧ l + 3 ≤ pat.length ∧ g = 1 then answer model else specFail model "selection-inconsistent"
+    | _ => badCase "impl output"
+  | _, _ => badCase "fields"
+
+/-- `casengrams <r0,r1,r2> <fold table c:f,c:f,…>`: the variants `generateCaseNgrams` yields, in order; `fold` is
+    `unicode.SimpleFold` on the runes of the table (identity elsewhere). Spec on the implementation's answer: every
+    triple of the product of the three fold orbits is among the variants. -/
+def handleCase (runes table impl : String) : String :=
+  let pairs? : Option (List (Nat × Nat)) :=
+    if table == "-" then some [] else (table.splitOn ",").mapM fun e =>
+      match e.splitOn ":" with
+      | [a, b] => do pure (← a.toNat?, ← b.toNat?)
+      | _ => Option.none
+  match natList? runes, pairs? with
+  | some orig, some pairs =>
+    let fold : Nat → Nat := fun c => match pairs.find? (·.1 == c) with | some p => p.2 | Option.none => c
+    let vs := generateCase fold orig 300
+    let showT (t : List Nat) : String := ".".intercalate (t.map toString)
+    let model := "variants=" ++ "|".intercalate (vs.map showT)
+    let orbit (c : Nat) : List Nat := (List.range 8).map (fun j => Nat.repeat fold j c)
+    let product := (orig.map orbit).foldr (fun os acc => os.flatMap fun x => acc.map (x :: ·)) [[]]
+    let implVs := ((impl.drop 9).toString.splitOn "|")
+    if !impl.startsWith "variants=" then badCase "impl output"
+    else if product.all (fun t => implVs.contains (showT t)) then answer model
+    else specFail model "case-variants-miss-an-orbit-member"
+  | _, _ => badCase "fields"
+
+/-- prefix token stream -> regexp syntax tree -/
+partial def parseRx : List String → Option (Rx × List String)
+  | [] => Option.none
+  | tok :: rest =>
+    let subs (n : Nat) (rest : List String) : Option (Rxs × List String) := do
+      let mut acc : List Rx := []
+      let mut r := rest
+      for _ in [0:n] do
+        let (c, r') ← parseRx r
+        acc := c :: acc
+        r := r'
+      pure (acc.foldl (fun t h => Rxs.cons h t) Rxs.nil, r)
+    let pairs (l : List Nat) : List (Nat × Nat) :=
+      (List.range (l.length / 2)).map fun i => (l.getD (2 * i) 0, l.getD (2 * i + 1) 0)
+    match tok.splitOn ":" with
+    | ["L", f, rs] => do pure (.lit (← natList? rs) (← bool? f), rest)
+    | ["C", rs] => do pure (.cls (pairs (← natList? rs)), rest)
+    | ["A"] => some (.anyNL, rest)
+    | ["a"] => some (.anyNotNL, rest)
+    | ["bl"] => some (.beginLine, rest)
+    | ["el"] => some (.endLine, rest)
+    | ["bt"] => some (.beginText, rest)
+    | ["et"] => some (.endText, rest)
+    | ["wb"] => some (.wordB, rest)
+    | ["nwb"] => some (.noWordB, rest)
+    | ["E"] => some (.empty, rest)
+    | ["N"] => some (.noMatch, rest)
+    | ["cap"] => do let (c, r) ← parseRx rest; pure (.cap c, r)
+    | ["star"] => do let (c, r) ← parseRx rest; pure (.star c, r)
+    | ["plus"] => do let (c, r) ← parseRx rest; pure (.plus c, r)
+    | ["quest"] => do let (c, r) ← parseRx rest; pure (.quest c, r)
+    | ["rep", mn, mx] => do
+      let (c, r) ← parseRx rest
+      let mx' : Option Nat := if mx == "-1" then Option.none else mx.toNat?
+      pure (.rep c (← mn.toNat?) mx', r)
+    | ["cat", n] => do let (cs, r) ← subs (← n.toNat?) rest; pure (.cat cs, r)
+    | ["alt", n] => do let (cs, r) ← subs (← n.toNat?) rest; pure (.alt cs, r)
+    | _ => Option.none
+
+partial def litTokens : Lit → List String
+  | .brute => ["T"]
+  | .none => ["Z"]
+  | .sub pat cs => ["S:" ++ showBool cs ++ ":" ++ showNatList pat]
+  | .and ch => s!"A:{ch.length}" :: ch.flatMap litTokens
+  | .andLine ch => s!"L:{ch.length}" :: ch.flatMap litTokens
+  | .or ch => s!"O:{ch.length}" :: ch.flatMap litTokens
+
+/-- `extract <caseSensitive> <syntax tree tokens>` -/
+def handleExtract (cs toks : String) : String :=
+  match bool? cs, parseRx (toks.splitOn ";") with
+  | some cs, some (r, []) =>
+    let e := r.extract cs
+    answer s!"tree={";".intercalate (litTokens e.tree)} eq={showBool e.isEq} sl={showBool e.singleLine}"
+  | _, _ => badCase "fields"
 
 def handle (line : String) : String :=
   let (inp, impl) := splitCase line
   match fields inp with
   | ["search", live, names, contents, tree] => handleSearch live names contents tree impl
+  | ["btree", b, v, ngs, qs] => handleBtree b v ngs qs impl
+  | ["word", d, w] => handleWord d w impl
+  | ["select", p, fr] => handleSelect p fr impl
+  | ["casengrams", rs, tb] => handleCase rs tb impl
+  | ["extract", cs, toks] => handleExtract cs toks
   | _ => badCase "op"
 
 def main : IO Unit := runLines handle
